@@ -119,6 +119,8 @@ def plan_classes(expr):
             if type(x).__name__ == "Fused":
                 for y in x.exprs:
                     out.add(type(y).__name__)
+                    if type(y).__name__ in ("FusedIO", "FusedParquetIO"):
+                        out.add(type(y.operand("_expr")).__name__)
     except Exception:
         pass
     return sorted(out)
